@@ -180,6 +180,14 @@ func watchdog() {
 	}
 }
 
+// Guard runs f (a free-running case, outside any bubble) under the hang watchdog.
+func Guard(f func()) {
+	wdOnce.Do(func() { go watchdog() })
+	wdStart.Store(time.Now().UnixNano())
+	defer wdStart.Store(0)
+	f()
+}
+
 // SetOnHang registers a function called by the watchdog before it exits the
 // process (used to save the current case as a replay file).
 func SetOnHang(f func()) { wdOnHang.Store(&f) }
